@@ -579,3 +579,29 @@ Qed.
 
 Lemma runner_sound : forall p sch s tr, run_steps p init sch [] = Some (s, tr) -> reach p s.
 Proof. intros p sch s tr. apply run_steps_reach. constructor. Qed.
+
+(* every tag: the component of each tag is a reachable single-tag state *)
+Lemma every_tag p S : mreach p S -> forall tag, reach p (S tag).
+Proof.
+  induction 1; intros tag0.
+  - constructor.
+  - unfold mupd. destruct (Nat.eqb_spec tag0 tag) as [->|]; auto. eapply r_step; eauto.
+Qed.
+
+Lemma safety_every_tag : forall p S tag, modelled p -> mreach p S ->
+  (forall t1 t2, in_f (S tag) t1 -> in_f (S tag) t2 -> t1 = t2) /\
+  ndone (S tag) <= 1 /\
+  (forall t r, returned (S tag) t r -> cache (S tag) = Done r) /\
+  (forall r, cache (S tag) = Done r -> forall t, ~ in_f (S tag) t) /\
+  (forall t e, pc (th (S tag) t) = Raised e -> e = FExn /\ own_f_raised (S tag) t) /\
+  (forall t r, returned (S tag) t r -> fraised (th (S tag) t) = false) /\
+  (forall t, pc (th (S tag) t) <> Stuck).
+Proof. intros p S tag Hp H. apply (safety p (S tag) Hp). apply every_tag; auto. Qed.
+
+Lemma no_deadlock_every_tag : forall p S tag t, modelled p -> mreach p S -> unfinished (S tag) t ->
+  enabled p (S tag) t \/ exists t', t' <> t /\ blocked_on p (S tag) t t' /\ enabled p (S tag) t'.
+Proof. intros p S tag t Hp H. apply (no_deadlock p (S tag) t Hp). apply every_tag; auto. Qed.
+
+(* a step on one tag leaves every other tag's component untouched *)
+Lemma tags_independent : forall (S : mstate) tag s' tag', tag' <> tag -> mupd S tag s' tag' = S tag'.
+Proof. intros. unfold mupd. destruct (Nat.eqb_spec tag' tag); congruence. Qed.
